@@ -40,6 +40,7 @@ type subject struct {
 	unordered  bool
 	gaps       []int  // virtual seconds before each send (channels), last = before close
 	prelude    string // declared by the program itself, at its very beginning (ints() kept in a variable)
+	holes      bool   // ranger-plain: every other element is no value at all (an invalid reflect.Value): it renders as nothing
 }
 
 // what a nil interface value renders as (fmt's "<nil>", auto-escaped)
@@ -62,6 +63,7 @@ func (r *idxRanger) ProvidesIndex() bool { return true }
 type plainRanger struct {
 	items []string
 	i     int
+	holes bool // an empty item is handed out as no value at all
 }
 
 func (r *plainRanger) Range() (reflect.Value, reflect.Value, bool) {
@@ -69,11 +71,35 @@ func (r *plainRanger) Range() (reflect.Value, reflect.Value, bool) {
 		return reflect.Value{}, reflect.Value{}, true
 	}
 	r.i++
+	if r.holes && r.items[r.i-1] == "" {
+		return reflect.Value{}, reflect.Value{}, false
+	}
 	return reflect.Value{}, reflect.ValueOf(r.items[r.i-1]), false
 }
 func (r *plainRanger) ProvidesIndex() bool { return false }
 
 type stNonZero struct{ A int }
+
+// c5ifaces: fields of non-empty interface types holding falsy and truthy values; a condition judges
+// what the interface holds
+type c5ifaces struct {
+	S fmt.Stringer // an empty string of a named type
+	E error        // a typed nil pointer
+	Z fmt.Stringer // a zero of a named int type
+	T fmt.Stringer // a non-empty string
+	N fmt.Stringer // nil
+}
+type c5zstr string
+
+func (z c5zstr) String() string { return string(z) }
+
+type c5zint int
+
+func (z c5zint) String() string { return "zint" }
+
+type c5err struct{}
+
+func (*c5err) Error() string { return "c5err" }
 
 // feedRanger is a custom Ranger whose own Go kind is chan: the Ranger interface must win over the
 // built-in channel ranger (its elements come out transformed).
@@ -197,6 +223,8 @@ var condTable = []c5cond{
 	{"hf", true}, {"nhf", true}, {"0.25", true}, {"tiny", true}, {"u8z", false}, {"u8", true}, {"i64z", false}, {"i64", true},
 	{"f32h", true}, {"f32z", false}, {"pi / 10", true}, {"1 - 0.5", true}, {"zi + 0.0", false}, {"not hf", false}, {"hf && cT", true},
 	{"pz", true}, {"pzs", true}, {"pfz", true}, {"pst0", true}, {"ppz", true},
+	// falsy and truthy values held in fields of non-empty interface types (fmt.Stringer, error)
+	{"ifs.S", false}, {"ifs.E", false}, {"ifs.Z", false}, {"ifs.T", true}, {"ifs.N", false}, {"not ifs.S", true}, {"ifs.S || ifs.T", true}, {"ifs.Z && ifs.T", false},
 	{"zi == 0", true}, {`ns == "x"`, true}, {`zs != ""`, false}, {"len(fsl) > 0", true}, {"isset(np)", false}, {"isset(pp)", true},
 }
 
@@ -285,7 +313,12 @@ func (g *c5gen) newSubject() *subject {
 	case "ranger-plain":
 		s = mk(k)
 		s.consumable, s.index = true, false
+		s.holes = t.Choose(3) == 2
 		for i := 0; i < n; i++ {
+			if s.holes && i%2 == 1 {
+				s.elems = append(s.elems, elem{"", ""})
+				continue
+			}
 			s.elems = append(s.elems, elem{"", fmt.Sprintf("p%d_%d", id, i)})
 		}
 	case "ranger-chan-typed":
@@ -890,6 +923,7 @@ func c5vars(subs []*subject, mixed []*c5mixed, ifaces []*c5iface, jsons []*c5jso
 	}
 	vm.Set("cT", true).Set("cF", false).Set("zi", 0).Set("pi", 5).Set("zf", 0.0).Set("pf", 1.5)
 	vm.Set("zs", "").Set("ns", "x").Set("s0", "0")
+	vm.Set("ifs", c5ifaces{S: c5zstr(""), E: (*c5err)(nil), Z: c5zint(0), T: c5zstr("x")})
 	vm.Set("hf", 0.5).Set("nhf", -0.5).Set("tiny", 1e-9).Set("u8z", uint8(0)).Set("u8", uint8(3)).Set("i64z", int64(0)).Set("i64", int64(-7))
 	vm.Set("f32h", float32(0.5)).Set("f32z", float32(0))
 	zero, empty, no := 0, "", false
@@ -956,7 +990,7 @@ func c5vars(subs []*subject, mixed []*c5mixed, ifaces []*c5iface, jsons []*c5jso
 			}
 			vm.Set(s.name, r)
 		case "ranger-plain":
-			r := &plainRanger{}
+			r := &plainRanger{holes: s.holes}
 			for _, e := range s.elems {
 				r.items = append(r.items, e.val)
 			}
